@@ -8,9 +8,12 @@ import (
 	"sort"
 	"strings"
 
+	"reservoir/zzverif/vnet"
 	"reservoir/zzverif/vrun"
 	"reservoir/zzverif/vsched"
 )
+
+var vnetIdentify = vnet.Identify
 
 // schedParams describes one concurrent scenario on a cache.
 type schedParams struct {
@@ -155,4 +158,73 @@ func classify(s string) string {
 
 type problem struct{ class, msg string }
 
-func (r *schedRun) integrityProblems() []problem { return nil }
+// integrityProblems is the C01(a) oracle on the recorded call/return history:
+// every body handed out is, byte for byte, the body of the (resource, version) its
+// metadata names; the size matches; and a read that started after an entry had been
+// replaced or removed does not return the replaced version.
+func (r *schedRun) integrityProblems() []problem {
+	var out []problem
+	var all []opRec
+	for _, t := range r.recs {
+		all = append(all, t...)
+	}
+	type wr struct {
+		call, ret int
+		ok        bool
+	}
+	writes := map[string]wr{}      // "k/vN/nB" -> the store that produced it
+	var removers []opRec           // successful stores and deletes, per key
+	keyOf := func(o opRec) string { return strings.Split(o.Op, ":")[1] }
+	for _, o := range all {
+		if o.Stored != "" {
+			writes[o.Stored] = wr{o.Call, o.Ret, o.Err == ""}
+			if o.Err == "" {
+				removers = append(removers, o)
+			}
+		}
+		if strings.HasPrefix(o.Op, "D:") && o.Err == "" {
+			removers = append(removers, o)
+		}
+		if o.Bad != "" {
+			out = append(out, problem{"bad-read/" + classify(o.Bad), fmt.Sprintf("T%d %s: %s", o.Thread, o.Op, o.Bad)})
+		}
+	}
+	for _, o := range all {
+		if !strings.HasPrefix(o.Op, "G:") || o.Err != "" {
+			continue
+		}
+		k := keyOf(o)
+		cand, why := vnetIdentify([]byte(o.Body), r.h.cands)
+		if why != "" {
+			out = append(out, problem{"body/" + classify(why), fmt.Sprintf("T%d %s returned a body that is no stored body: %s (metadata says %s)", o.Thread, o.Op, why, o.Meta)})
+			continue
+		}
+		ident := cand.String()
+		if ident != o.Meta {
+			out = append(out, problem{"mispaired", fmt.Sprintf("T%d %s returned the body of %s with the metadata of %s", o.Thread, o.Op, ident, o.Meta)})
+		}
+		if cand.R != k {
+			out = append(out, problem{"foreign-resource", fmt.Sprintf("T%d %s returned the body of %s", o.Thread, o.Op, ident)})
+		}
+		if o.Size != int64(len(o.Body)) {
+			out = append(out, problem{"size", fmt.Sprintf("T%d %s: Metadata.Size %d but %d bytes read", o.Thread, o.Op, o.Size, len(o.Body))})
+		}
+		w, ok := writes[ident]
+		if !ok {
+			continue
+		}
+		if w.call > o.Ret {
+			out = append(out, problem{"future-read", fmt.Sprintf("T%d %s returned %s before it was stored", o.Thread, o.Op, ident)})
+		}
+		for _, x := range removers {
+			if keyOf(x) != k || x.Stored == ident {
+				continue
+			}
+			if x.Call > w.ret && x.Ret < o.Call {
+				out = append(out, problem{"replaced-body-served", fmt.Sprintf("T%d %s [%d,%d] returned %s although T%d %s [%d,%d] had replaced/removed it before the read began", o.Thread, o.Op, o.Call, o.Ret, ident, x.Thread, x.Op, x.Call, x.Ret)})
+				break
+			}
+		}
+	}
+	return out
+}
